@@ -3,6 +3,7 @@
 #ifndef TETL_CHRONO_TIME_POINT_HPP
 #define TETL_CHRONO_TIME_POINT_HPP
 
+#include <etl/_chrono/duration.hpp>
 #include <etl/_type_traits/common_type.hpp>
 #include <etl/_type_traits/is_convertible.hpp>
 
@@ -112,6 +113,43 @@ struct time_point {
 private:
     duration _d{};
 };
+
+/// \brief Adds the duration to the time point. The result's duration is the
+/// common type of the time point's duration and the offset.
+///
+/// https://en.cppreference.com/w/cpp/chrono/time_point/operator_arith2
+template <typename Clock, typename Dur1, typename Rep2, typename Period2>
+[[nodiscard]] constexpr auto operator+(time_point<Clock, Dur1> const& lhs, duration<Rep2, Period2> const& rhs)
+    -> time_point<Clock, common_type_t<Dur1, duration<Rep2, Period2>>>
+{
+    using CT = time_point<Clock, common_type_t<Dur1, duration<Rep2, Period2>>>;
+    return CT(lhs.time_since_epoch() + rhs);
+}
+
+/// \brief Adds the duration to the time point.
+template <typename Rep1, typename Period1, typename Clock, typename Dur2>
+[[nodiscard]] constexpr auto operator+(duration<Rep1, Period1> const& lhs, time_point<Clock, Dur2> const& rhs)
+    -> time_point<Clock, common_type_t<duration<Rep1, Period1>, Dur2>>
+{
+    return rhs + lhs;
+}
+
+/// \brief Subtracts the duration from the time point.
+template <typename Clock, typename Dur1, typename Rep2, typename Period2>
+[[nodiscard]] constexpr auto operator-(time_point<Clock, Dur1> const& lhs, duration<Rep2, Period2> const& rhs)
+    -> time_point<Clock, common_type_t<Dur1, duration<Rep2, Period2>>>
+{
+    using CT = time_point<Clock, common_type_t<Dur1, duration<Rep2, Period2>>>;
+    return CT(lhs.time_since_epoch() - rhs);
+}
+
+/// \brief Computes the difference between two time points of the same clock.
+template <typename Clock, typename Dur1, typename Dur2>
+[[nodiscard]] constexpr auto operator-(time_point<Clock, Dur1> const& lhs, time_point<Clock, Dur2> const& rhs)
+    -> common_type_t<Dur1, Dur2>
+{
+    return lhs.time_since_epoch() - rhs.time_since_epoch();
+}
 
 /// \brief  Compares two time points. The comparison is done by comparing the
 /// results time_since_epoch() for the time points.
